@@ -344,7 +344,44 @@ def highlight_fn(src):
     return '\n'.join(L), len(arms)
 
 
+def first_print_shapes(repo):
+    """`processing_loop` (s4.rs), first print: how the file-name field is padded for `-w` and how the
+    prepend separator joins the datetime format."""
+    src = strip_comments(open(os.path.join(repo, 'src/bin/s4.rs')).read())
+    fw = ws(src)
+    # (1) padding measure of the two file-name fields (`-n` basename, `-p` path)
+    by_cols = []
+    for var in ('bname', 'path'):
+        char_form = f'let prepend: String = format!("{{0:<1$}}{{2}}", {var}, prependname_width, cli_prepend_separator);'
+        col_form = (f'let pad: usize = prependname_width .saturating_sub(unicode_width::UnicodeWidthStr::width({var}.as_str())); '
+                    f'let prepend: String = format!("{{}}{{}}{{}}", {var}, " ".repeat(pad), cli_prepend_separator);')
+        nchar, ncol = fw.count(char_form), fw.count(col_form)
+        if (nchar, ncol) == (1, 0):
+            by_cols.append(False)
+        elif (nchar, ncol) == (0, 1):
+            by_cols.append(True)
+        else:
+            raise GenError(f"s4.rs processing_loop: the `{var}` file-name field is neither `format!(\"{{0:<1$}}{{2}}\", …)` (pads by char count) "
+                           f"nor name + \" \".repeat(width - display width) + separator")
+    if by_cols[0] != by_cols[1]:
+        raise GenError("s4.rs processing_loop: the -n and -p file-name fields are padded by different measures")
+    nwidth = fw.count('prependname_width = std::cmp::max( prependname_width, unicode_width::UnicodeWidthStr::width(')
+    if nwidth != 2:
+        raise GenError("s4.rs processing_loop: prependname_width is not the max of UnicodeWidthStr::width over the printed names (2 sites)")
+    # (2) the prepend separator inside the strftime format
+    lit = 'Some(ref s) => Some(s.to_owned() + cli_prepend_separator.replace(\'%\', "%%").as_str()),'
+    raw = 'Some(ref s) => Some(s.to_owned() + cli_prepend_separator.as_str()),'
+    if fw.count(lit) == 1 and fw.count(raw) == 0:
+        sep_literal = True
+    elif fw.count(raw) == 1 and fw.count(lit) == 0:
+        sep_literal = False
+    else:
+        raise GenError("s4.rs processing_loop: prepend_date_format is neither fmt + separator nor fmt + separator.replace('%', \"%%\")")
+    return by_cols[0], sep_literal
+
+
 def generate(repo):
+    align_cols, sep_literal = first_print_shapes(repo)
     src = strip_comments(open(os.path.join(repo, 'src/printer/printers.rs')).read())
     m = re.search(r'\bconst\s+BUFFER_CAP\s*:\s*usize\s*=\s*([^;]+);', src)
     if not m:
@@ -452,6 +489,14 @@ def generate(repo):
     L.append('/-- body of `for linepart in (*$linep).lineparts.iter()` in `print_color_line_highlight_dt!`')
     L.append('(`at_` = `at` on entry; the loop then does `at += slice.len()`) -/')
     L.append(hl)
+    L.append('')
+    L.append('/-- `processing_loop`, first print: with `-w` the file-name field is the name followed by')
+    L.append('`prependname_width - UnicodeWidthStr::width(name)` spaces (`true`), or `format!("{0:<1$}", name, width)`,')
+    L.append('which pads by `char` count (`false`); `prependname_width` is the max display width of the printed names -/')
+    L.append(f'def ALIGN_PADS_BY_COLUMNS : Bool := {b(align_cols)}')
+    L.append('/-- the datetime field is strftime(format ++ separator with every `%` doubled) (`true`: the separator is')
+    L.append('literal text) or strftime(format ++ separator) (`false`: a `%` in the separator is interpreted) -/')
+    L.append(f'def PREPEND_SEPARATOR_LITERAL : Bool := {b(sep_literal)}')
     L.append('')
     L.append('end S4V.Gen.Print')
     return '\n'.join(L) + '\n', {'BUFFER_CAP': cap, 'functions': len(names), 'macro_invocations_checked': ninv, 'highlight_cases': narms}
